@@ -17,7 +17,7 @@ PROPS = {
     'C01': 'harness.c01', 'C02': 'harness.c02', 'C03': 'harness.c03', 'C04': 'harness.c04', 'C05': 'harness.c05',
     'C06': 'harness.c06', 'C07': 'harness.c07', 'C09': 'harness.c09', 'C10': 'harness.c10', 'C11': 'harness.c11',
     'C12': 'harness.c12', 'C13': 'harness.c13', 'C14': 'harness.c14', 'C18': 'harness.c18', 'C19': 'harness.c19',
-    'C20': 'harness.c20', 'C08': 'harness.c08', 'C16': 'harness.c16',
+    'C20': 'harness.c20', 'C08': 'harness.c08', 'C16': 'harness.c16', 'C15': 'harness.c15',
 }
 
 
@@ -205,7 +205,10 @@ def run_check(mod, ctx, prop, tier, seed, t0, args):
         except Exception as ex:
             conf, extra_cov, inc = [], {}, ['extra engine crashed: %r %s' % (ex, traceback.format_exc(limit=8))]
         inconclusive.extend(inc)
+        have = {k for k, _, _ in new_viol} | {k for k, _ in known_hit}
         for k, v, detail in conf:
+            if k in have: continue           # already found (and replayed) by the symbolic part
+            have.add(k)
             if (prop, k) in known: known_hit.append((k, known[(prop, k)]))
             else: new_viol.append((k, v, detail))
     if not_repro:
